@@ -680,7 +680,7 @@ fn main() -> std::process::ExitCode {
         "C03",
         "one template-generated A64 word (20 families, every field random, register 31 over-represented in every position, 1/32 with one bit flipped) x one state (boundary-biased X0-X30/SP, all 16 NZCV, base register steered into a 512-byte window, memory a total pseudo-random function) x {AArch64, AArch64Eb} x {default, unsupported_are_intrinsics}; lifted with translate_block, the IL run by the reference IL interpreter, compared with an Arm-ARM reference interpreter on X0-X30, SP, NZCV, V0-V31, every touched byte and the next pc. Non-trivial = the lifter accepted the word (no error, no panic, no intrinsic), the reference models it and prescribes one outcome (not CONSTRAINED UNPREDICTABLE, no SP-alignment dependence) and the comparison ran; distinct = (mnemonic+size, addressing mode/operand form, shift/extend kind and amount class, which operands are register 31, flag-boundary class {carry-out, signed overflow, zero}, branch taken, endianness)",
         Box::new(|_t: Tier| from_tape(320, gen_case)),
-        |t| t.pick(600_000, 30_000_000),
+        |t| t.pick(2_400_000, 60_000_000),
         check,
     );
     spec.render = render;
